@@ -93,6 +93,13 @@ HOW = {
                 None, 'keepmask', True),
     'snumer':  (lambda sh, c: c == 'Vector3', lambda q, r: q.slice_numer(0, 0, 2, Vector, r), lambda a, n: a[..., 0:2],
                 None, 'keepmask', True),
+    # item operations whose cast() converts the data type: new values array, the SAME mask object (oracle only)
+    'swapcast': (lambda sh, c: c == 'Boolean', lambda q, r: q.swap_items(Scalar), lambda a, n: a, None, 'unmodelled', False),
+    'splitcast': (lambda sh, c: c == 'Boolean', lambda q, r: q.split_items(0, Scalar), lambda a, n: a, None, 'unmodelled', False),
+    'xnumcast': (lambda sh, c: c in ('Vector3', 'Pair'), lambda q, r: q.extract_numer(0, 1, Boolean, r),
+                 lambda a, n: a[..., 1], None, 'unmodelled', True),
+    'slicecast': (lambda sh, c: c == 'Vector3', lambda q, r: q.slice_numer(0, 0, 2, Boolean, r), lambda a, n: a[..., 0:2],
+                  None, 'unmodelled', True),
 }
 MUT_KINDS = ['setitem', 'iop', 'setunits', 'deld', 'delds', 'insd', 'insds']
 IOPS = ['+=', '-=', '*=', '/=', '//=', '%=', '&=', '|=', '^=']
@@ -395,6 +402,8 @@ def request_of(R, op):
         return None
     if k == 'derive':
         ok, qf, vf, mf, mode, takes = HOW[op['how']]
+        if mode == 'unmodelled':
+            return None
         vals, mask = q._values_, q._mask_
         nsh = len(q._shape_)
         if not isinstance(vals, np.ndarray):
@@ -1026,6 +1035,10 @@ def mutator_matrix(prefix_list):
             ('view', [{'op': 'asro', 'v': 0, 'rec': 'default'}, {'op': 'derive', 'v': 0, 'how': 'rev', 'rec': True}], -1),
             ('fancy', [{'op': 'asro', 'v': 0, 'rec': 'default'}, {'op': 'derive', 'v': 0, 'how': 'fancy', 'rec': True}], -1),
             ('wod', [{'op': 'asro', 'v': 0, 'rec': 'default'}, {'op': 'wod', 'v': 0}], -1),
+            ('swapcast', [{'op': 'asro', 'v': 0, 'rec': 'default'}, {'op': 'derive', 'v': 0, 'how': 'swapcast', 'rec': True}], -1),
+            ('splitcast', [{'op': 'asro', 'v': 0, 'rec': 'default'}, {'op': 'derive', 'v': 0, 'how': 'splitcast', 'rec': True}], -1),
+            ('xnumcast', [{'op': 'asro', 'v': 0, 'rec': 'default'}, {'op': 'derive', 'v': 0, 'how': 'xnumcast', 'rec': True}], -1),
+            ('slicecast', [{'op': 'asro', 'v': 0, 'rec': 'default'}, {'op': 'derive', 'v': 0, 'how': 'slicecast', 'rec': True}], -1),
             ('copyro', [{'op': 'copy', 'v': 0, 'rec': True, 'ro': True}], -1)]
     for pname, pops in prefix_list:
         for wname, wops, tgt in ways:
